@@ -135,7 +135,6 @@ contract('MatlabWrapper.wrap_collector_function_upcast_from_void',
 
 contract('MatlabWrapper.generate_preamble', returns='tuple[str,str,str,str,str]', assumed=True,
          note='type-only here; its clauses are C10')
-contract('InstantiatedClass.to_cpp', returns='str', assumed=True, note='type-only here; exact spelling: contracts/names.py')
 
 contract('MatlabWrapper.generate_wrapper', params={'namespace': 'ref:Namespace'}, returns='none',
          ghost=dict(GHOST, **dict(CASES, **DEFS)),
